@@ -47,6 +47,7 @@ pub fn run(cfg: &Cfg, rep: &mut Report) {
     let alphabet: Vec<char> = "\\^$.|?*+()[]{}-/&,aksiKé\n\u{2028}\u{10000}!#~:<=>@`%;".chars().collect();
     let mut strings: Vec<String> = vec![String::new()];
     let maxlen = if cfg.quick() { 2 } else { 3 };
+    let _ = maxlen;
     let mut frontier = vec![String::new()];
     for _ in 0..maxlen {
         let mut next = Vec::new();
@@ -61,7 +62,7 @@ pub fn run(cfg: &Cfg, rep: &mut Report) {
         frontier = next;
     }
     let mut rng = Rng::new(cfg.seed ^ 0x18);
-    for _ in 0..cfg.scaled(if cfg.quick() { 3_000 } else { 100_000 }) {
+    for _ in 0..cfg.scaled(if cfg.quick() { 40_000 } else { 1_000_000 }) {
         let len = rng.range(3, 12);
         let mut s = String::new();
         for _ in 0..len {
